@@ -392,3 +392,23 @@ pub(crate) fn m_num_add(l: &Num, r: &Num) -> Num {
 pub(crate) fn m_num_mul(l: &Num, r: &Num) -> Num {
     num_of_v(vspec::v_mul(v_of_num(l), v_of_num(r)))
 }
+
+// @h prop=C07 unwind=12 timeout=1800 mem=16 tier=thorough kind=stretch what=two-limb_numerators_over_one-limb_denominators,both_signs(vs_128-bit_products_of_64x32)
+#[cfg_attr(kani, kani::proof)]
+pub fn cmp_2limb_frac() {
+    let a: [u32; 2] = any_u32_arr();
+    let c: [u32; 2] = any_u32_arr();
+    let (b, d) = (any_u32(), any_u32());
+    let (sa, sc) = (any_bool(), any_bool());
+    assume(a[1] != 0 && c[1] != 0 && b != 0 && d != 0);
+    let x = Num { up: BigNum::verif_raw(sa, a.to_vec()), down: bn1(true, b) };
+    let y = Num { up: BigNum::verif_raw(sc, c.to_vec()), down: bn1(true, d) };
+    // |a|*d and |c|*b as sums of 32x32 partial products
+    let l = ((a[0] as u64 * d as u64) as u128) + (((a[1] as u64 * d as u64) as u128) << 32);
+    let r = ((c[0] as u64 * b as u64) as u128) + (((c[1] as u64 * b as u64) as u128) << 32);
+    let want = if !sa && sc { Ordering::Less } else if sa && !sc { Ordering::Greater } else if sa { l.cmp(&r) } else { r.cmp(&l) };
+    assume(want != Ordering::Equal || (a == c && b == d && sa == sc));
+    assert!(x.partial_cmp(&y) == Some(want));
+    vcover!();
+    std::mem::forget((x, y));
+}
